@@ -509,6 +509,9 @@ class C20(common.Prop):
         if case['kind'] == 'ring':
             out['table'] = c14.float_table({c for m in NODE_RE.finditer(case['reader_text'])
                                             for c in c14.candidates(m.group(0)[2:-1])})
+        if self.base_fault(case):
+            out['base_table'] = c14.float_table({c for m in NODE_RE.finditer(case['s'].split('}')[0])
+                                                 for c in c14.candidates(m.group(0)[2:-1])})
         if case['kind'] == 'frag':
             hit = [r for r in rec if any(nm == 'ZZ' for _, nm in r['nodes'])]
             if not hit:
@@ -527,7 +530,18 @@ class C20(common.Prop):
             out.update(nodes=r['nodes'], edges=r['edges'], dict=sorted(set(defined)), used_dict=r['dict'], bad=real[0])
         return out
 
+    @staticmethod
+    def base_fault(case):
+        """a ring or annotation fault in the base block: also judged through the driver model (Pipeline.from_string)"""
+        return (case['kind'] == 'ring' and case['where'][0] == 0) or (case['kind'] == 'annot' and case['lk'] == 0)
+
     def coq_case(self, case, impl):
+        inner = self.coq_case1(case, impl)
+        if 'skip' not in impl and self.base_fault(case):
+            return '(FBase %s %s %s)' % (inner, c14.coq_table(impl['base_table']), lit.s(case['s']))
+        return inner
+
+    def coq_case1(self, case, impl):
         if 'skip' in impl:
             return '(FRing 1%nat [EvRing 0%Z 1%Z] 1%Z [] (S "{[#A]1}") (Some (ESyntax (S "dangling"))))'
         im = 'None' if impl['exc'] is None else '(Some %s)' % c14.coq_err(impl['exc'])
